@@ -369,7 +369,32 @@ func TestC02_Words(t *testing.T) {
 			for i := n - 1; i > 0 && ir(t, 0, 1, "shortenB") == 0; i-- {
 				a.B[i] = 0
 			}
-			if op == "div" && ir(t, 0, 2, "closeTop") == 0 {
+			if op == "div" && ir(t, 0, 2, "exactMultiple") == 0 {
+				// dividend = q*divisor + r with hostile q and r in {0, 1, divisor-1}: exact divisions and the
+				// remainders that sit right at the correction steps of the quotient estimate
+				o := wordsToBig(a.B)
+				if o.Sign() > 0 {
+					qw := make([]uint64, n)
+					for i := range qw {
+						qw[i] = genWord(t)
+					}
+					q := wordsToBig(qw)
+					lim := new(big.Int).Lsh(ref.One, uint(w))
+					for new(big.Int).Mul(q, o).Cmp(lim) >= 0 {
+						q.Rsh(q, 17)
+					}
+					v := new(big.Int).Mul(q, o)
+					switch ir(t, 0, 2, "rem") {
+					case 1:
+						v.Add(v, ref.One)
+					case 2:
+						v.Add(v, new(big.Int).Sub(o, ref.One))
+					}
+					if v.Cmp(lim) < 0 {
+						a.A = bigToWords(v, n)
+					}
+				}
+			} else if op == "div" && ir(t, 0, 2, "closeTop") == 0 {
 				// divisor's top word just below / equal to the dividend's: quotient-estimate correction
 				for i := n - 1; i >= 0; i-- {
 					if a.A[i] != 0 {
@@ -385,4 +410,72 @@ func TestC02_Words(t *testing.T) {
 		}
 		hookWord.Run(t, a)
 	})
+}
+
+// TestC02_WordsHostileProduct enumerates uint128.div and uint192.div over the
+// complete product of a set of hostile words (all-ones, sign bit, 2^32
+// boundaries, powers of ten, the coefficient limits), the patterns for which
+// the quotient-estimate correction steps of the division routines exist. Quick
+// tier: 9 words (9^6 = 531441 pairs for uint192); thorough tier: all 17 words
+// (17^6 = 24.1M pairs), split across shards.
+func TestC02_WordsHostileProduct(t *testing.T) {
+	st := S("C02", "word-division-hostile-product")
+	words := hostileWords
+	if cfg.tier != "thorough" {
+		words = []uint64{0, 1, 0x7fffffffffffffff, 0x8000000000000000, 0x8000000000000001, 0xffffffffffffffff, 0xfffffffffffffffe, 0x00000000ffffffff, 0xffffffff00000000}
+	}
+	n := 0
+	idx := 0
+	check := func(width int, a, b []uint64) {
+		idx++
+		if idx%cfg.shards != cfg.shard {
+			return
+		}
+		args := hookWordArgs{Width: width, Op: "div", A: a, B: b}
+		if wordsToBig(b).Sign() == 0 {
+			return
+		}
+		// direct comparison (the generic check allocates a statistics record per call)
+		x, y := wordsToBig(a), wordsToBig(b)
+		q, r := new(big.Int).QuoRem(x, y, new(big.Int))
+		var got []uint64
+		if width == 128 {
+			got = d128.VerifU128("div", [2]uint64{a[0], a[1]}, [2]uint64{b[0], b[1]}, 0)
+		} else {
+			got = d128.VerifU192("div", [3]uint64{a[0], a[1], a[2]}, [3]uint64{b[0], b[1], b[2]}, 0)
+		}
+		k := width / 64
+		want := append(bigToWords(q, k), bigToWords(r, k)...)
+		if fmt.Sprint(got) != fmt.Sprint(want) {
+			v := violf("uint%d.div(%x, %x) = %x, want %x", width, a, b, got, want)
+			hookWord.writeFail(args, v)
+			t.Fatalf("%s", v.Msg)
+		}
+		n++
+	}
+	for _, a0 := range words {
+		for _, a1 := range words {
+			for _, b0 := range words {
+				for _, b1 := range words {
+					check(128, []uint64{a0, a1}, []uint64{b0, b1})
+				}
+			}
+		}
+	}
+	for _, a0 := range words {
+		for _, a1 := range words {
+			for _, a2 := range words {
+				for _, b0 := range words {
+					for _, b1 := range words {
+						for _, b2 := range words {
+							check(192, []uint64{a0, a1, a2}, []uint64{b0, b1, b2})
+						}
+					}
+				}
+			}
+		}
+	}
+	st.Eval(n)
+	st.SetExhaustive()
+	st.Note("enumerated", fmt.Sprintf("uint128.div and uint192.div over the full product of %d hostile words per operand word", len(words)))
 }
